@@ -15,6 +15,9 @@ def run(tier, v, wd, replay=None):
     vec = generate(tier, v, wd, cfgs)
     repo = vlib.scratch_repo(wd, "real")
     run_vectors(v, wd, repo, "./control/", "TestVerifRuleScanKern", vec, env=env, tags="verif", timeout=3000)
+    # a second sample with 40 never-matching domain rules in front: the program's own domain sets land in the second 32-rule word
+    env2 = dict(env, VERIF_RS_SHIFT="40", VERIF_RS_EVERY=str(int(env["VERIF_RS_EVERY"]) * 3), VERIF_RS_ONLY="domain")
+    run_vectors(v, wd, repo, "./control/", "TestVerifRuleScanKern", vec, env=env2, tags="verif", timeout=3000, outname="out-shift.json")
     v.coverage["explanation"] = ("TLC checks KScan (the route() automaton incl. DNS_QUERY hand-over) against the first-match semantics in every state; "
                                  "a seed-independent 1/%s sample of the generated programs is compiled by the production pipeline, installed into real kernel maps by "
                                  "BuildKernspace (LPM ring, routing_map, routing_meta_map) and every LAN packet is run through the real tproxy_lan_ingress_l2 "
